@@ -476,6 +476,9 @@ def one(ctx: Ctx, hist: list[Any], label: str) -> None:
 
 
 def shard(ctx: Ctx) -> None:
+    from vf.sim import device as _device
+
+    _device.AUTO_ROTATE = True   # chunking of the device's stream rotates: as written / replies coalesced / cut into 1..8-byte pieces
     rng = ctx.rng.__class__(f"C19/{ctx.seed}")
     idx = 0
     maxlen = 4 if ctx.thorough else 3
